@@ -24,6 +24,13 @@ def run(ctx):
     specs = util.corpus(ctx.prop) + gen.gen_many(ctx.seed, n, CFG, 'c02_')
     # longer horizons on DST / daily grids: step lengths differ, discounting matters
     specs += gen.gen_many(ctx.seed, n // 4, dict(CFG, T=(10, 30), freqs=['h', 'd', '2h'], tzs=['CET', None], p_dst=0.8, p_wacc=0.9), 'c02L_')
+    # steps of unequal length (daily steps across a clock change) with holding costs and discounting
+    dst = gen.gen_many(ctx.seed, n // 5, dict(CFG, freqs=['d'], tzs=['CET'], p_dst=1.0, T=(4, 8), p_unaligned_end=0.0, p_wacc=0.9, n_assets=(1, 2), kinds={'Storage': 1}), 'c02dst_')
+    for sp in dst:
+        for a in sp['assets']:
+            if a['kind'] == 'Storage':
+                a['cost_store'] = a.get('cost_store') or 0.375
+    specs += dst
     specs = ctx.specs(specs)
     res = C.run_impl('reference', specs)
     parts = C.run_impl('assets', specs)
